@@ -194,7 +194,8 @@ BODY_ORDERS = ['cni', 'cin', 'nci', 'nic', 'icn', 'inc']   # c = columns, n = no
 
 def table(body_order, note_form, case='same', K=2, fix=None):
     """header (schema / alias / headercolor / settings note: symbolic presence), body element order, blank lines, indentation"""
-    args = ([('h_schema', 'bool'), ('h_alias', 'bool'), ('h_color', 'bool'), ('h_note', 'bool'), ('b_note', 'bool'), ('blank', 'bool')]
+    args = ([('h_schema', 'bool'), ('h_alias', 'bool'), ('h_color', 'bool'), ('h_note', 'bool'), ('b_note', 'bool'), ('blank', 'bool'),
+             ('hs_multi', 'bool')]
             + hole_args('t', K, TEXT) + hole_args('x', 1, Cls('HEX')) + hole_args('w', 1, Cls('WS', minus='\r')))
 
     def build(a):
@@ -208,7 +209,7 @@ def table(body_order, note_form, case='same', K=2, fix=None):
         if a['h_note']:
             hs.append(_case('note', case) + ": 'settings note'")
         if hs:
-            head += ' [' + ', '.join(hs) + ']'
+            head += (' [\n    ' + ',\n    '.join(hs) + '\n  ]') if a['hs_multi'] else (' [' + ', '.join(hs) + ']')
         cols = ws + 'id int\n' + ('\n' if a['blank'] else '') + ws + '  name text\n'
         if note_form == 'inline':
             nt = '  ' + _case('Note', case) + ': ' + docs.q_single(txt) + '\n'
@@ -388,7 +389,8 @@ def reference(form, addr1, addr2, composite=False, case='same', K=2, fix=None):
         inline_part = ''
         tail = ''
         if form == 'inline':
-            inline_part = ' [' + 'ref: ' + op + ' ' + addr(2, addr2) + '.sku]'
+            # two inline references in one settings list (the second one to the other table's id column)
+            inline_part = ' [' + 'ref: ' + op + ' ' + addr(2, addr2) + '.sku, unique, ref: < ' + addr(2, 'full') + '.id]'
         elif form == 'short':
             tail = _case('Ref', case) + nm + ': ' + left + ' ' + op + ' ' + right + sett + '\n'
         else:
@@ -399,8 +401,9 @@ def reference(form, addr1, addr2, composite=False, case='same', K=2, fix=None):
         c2 = (('shop', 'items', 'sku'), ('shop', 'items', 'id')) if (composite and form != 'inline') else (('shop', 'items', 'sku'),)
         ref = ('ref', op, form == 'inline', 'fk_name' if nm else None, None,
                upd if form != 'inline' else None, dele if form != 'inline' else None, c1, c2)
-        exp = _expect_db(tables=[_table('orders', [_col('id'), _col(cname)], alias='O'),
-                                 _table('items', [_col('id'), _col('sku')], schema='shop', alias='I')], refs=[ref])
+        more = [('ref', '<', True, None, None, None, None, (('public', 'orders', cname),), (('shop', 'items', 'id'),))] if form == 'inline' else []
+        exp = _expect_db(tables=[_table('orders', [_col('id'), _col(cname, unique=(form == 'inline'))], alias='O'),
+                                 _table('items', [_col('id'), _col('sku')], schema='shop', alias='I')], refs=[ref] + more)
         return doc, exp
 
     def body(a):
@@ -582,8 +585,8 @@ def instances(tier):
                  'legacy': leg, 'fix': masks[mi]}, T1)
     # ---- tables: alias / settings note / body note symbolic; schema, colour, blank lines fanned out
     forms = ['inline', 'block', 'triple']
-    tmasks = [{'h_schema': True, 'h_color': False, 'blank': True}, {'h_schema': False, 'h_color': True, 'blank': False},
-              {'h_schema': True, 'h_color': True, 'blank': False}]
+    tmasks = [{'h_schema': True, 'h_color': False, 'blank': True, 'hs_multi': False}, {'h_schema': False, 'h_color': True, 'blank': False, 'hs_multi': True},
+              {'h_schema': True, 'h_color': True, 'blank': False, 'hs_multi': True}]
     for i, bo in enumerate(BODY_ORDERS):
         if quick and i % 2 == 1:
             continue
